@@ -510,14 +510,14 @@ def hasTable (feats : Features) (radix : Nat) : Bool :=
   else radix = 2 || radix = 4 || radix = 8 || radix = 10 || radix = 16 || radix = 32
 
 /-- `algorithm::<T>(value, radix, table, buffer)` -/
-def algorithm (bits value radix : Nat) (buffer : Buf) : Res (Buf × Nat) := do
+def algorithm (bits value radix : Nat) (buffer : Buf) : Res (Buf × Nat) :=
   if ¬ (2 ≤ radix ∧ radix ≤ 36) then .panic else
   if tableLen radix < radix * radix * 2 % 2 ^ 32 then .panic else
-  let count ← digitCountSmall bits value radix
+  digitCountSmall bits value radix >>= fun count =>
   if ¬ count ≤ buffer.length then .panic else
-  let sub := buffer.take count
-  let (sub, _) ← writeDigits bits value radix sub sub.length
-  pure (sub ++ buffer.drop count, count)
+  -- `let buffer = &mut buffer[..count]`, then `write_digits(value, radix, table, buffer, buffer.len(), count)`
+  writeDigits bits value radix (buffer.take count) (buffer.take count).length >>= fun w =>
+  Res.ok (w.1 ++ buffer.drop count, count)
 
 /-- `algorithm_u128::<FORMAT, MASK, SHIFT>(value, table, buffer)` -/
 def algorithmU128 (feats : Features) (value radix : Nat) (buffer : Buf) : Res (Buf × Nat) := do
